@@ -54,6 +54,9 @@ func checkC18(p *Prog, r *Report) {
 	/* 1. The escape loop. */
 	var escStore *ssa.Store
 	var escCall *ssa.Call
+	/* The rows executed can be a copy made index by index: out := make([]T,
+	len(rows)); for i, row := range rows { out[i] = T(escape(row)) }. */
+	indexed := indexedCopy(data)
 	eachInstr(gf, func(i ssa.Instruction) {
 		st, ok := i.(*ssa.Store)
 		if !ok {
@@ -61,6 +64,9 @@ func checkC18(p *Prog, r *Report) {
 		}
 		ia, ok := st.Addr.(*ssa.IndexAddr)
 		if !ok || ia.X != data {
+			return
+		}
+		if nil != indexed && st == indexed.Store {
 			return
 		}
 		if cc, ok := st.Val.(*ssa.Call); ok {
@@ -72,7 +78,10 @@ func checkC18(p *Prog, r *Report) {
 	/* Or the rows executed are a copy made row by row: out = append(out,
 	escape(row)) for every row of another slice. */
 	var mapped *mapLoop
-	if nil == escStore {
+	if nil != indexed {
+		escCall = indexed.Call
+	}
+	if nil == escStore && nil == indexed {
 		if mapped = mappedCopy(data); nil != mapped {
 			escCall = mapped.Call
 		}
@@ -83,7 +92,7 @@ func checkC18(p *Prog, r *Report) {
 		tnames = append(tnames, n)
 	}
 	quoteFn := "" /* template function which single-quotes a whole row */
-	if nil == escStore && nil == mapped {
+	if nil == escStore && nil == mapped && nil == indexed {
 		if text, _ := templateConst(p, sffPkg, "funcListTemplate"); "" != text {
 			if toks, err := flattenTemplate("funcList", text, tnames...); nil == err {
 				for _, t := range toks {
@@ -97,6 +106,49 @@ func checkC18(p *Prog, r *Report) {
 		}
 	}
 	switch {
+	case nil != indexed && nil == escStore:
+		escArg, okCall, why := quoteEscape(p, escCall)
+		switch {
+		case !okCall:
+			rSan.Bad(c+":escape", posOf(escCall), "%s", why)
+		case escArg != indexed.Elem:
+			rSan.Bad(c+":escape", posOf(escCall), "what is stored into the executed rows is not the escape of the whole source row")
+		default:
+			rSan.OK(c+":escape", posOf(escCall), "out[i] = escape(rows[i]) with ' → '\\''")
+		}
+		if indexed.Whole {
+			rSan.OK(c+":whole-slice", posOf(indexed.Store), "the copy has the length of the source rows and the loop fills every element from the row of the same index")
+		} else {
+			rSan.Bad(c+":whole-slice", posOf(indexed.Store), "the escaped copy does not take every source row: some elements reach the template empty or unescaped")
+		}
+		later := false
+		for _, ref := range *indexed.Dst.Referrers() {
+			switch y := ref.(type) {
+			case *ssa.MakeInterface, *ssa.DebugRef:
+				continue
+			case *ssa.IndexAddr:
+				if ssa.Value(y) == indexed.Store.Addr {
+					continue
+				}
+			case *ssa.Call:
+				if b, ok := y.Common().Value.(*ssa.Builtin); ok && ("len" == b.Name() || "cap" == b.Name()) {
+					continue
+				}
+				if y == exec {
+					continue
+				}
+			}
+			later = true
+			rSan.Bad(c+":nothing-after", posOf(ref), "the escaped rows are used by %T before Execute", ref)
+		}
+		if !later {
+			rSan.OK(c+":nothing-after", posOf(exec), "nothing touches the escaped copy between the loop and Execute")
+		}
+		if !instrDominatesLoop(indexed.Store, exec) {
+			rSan.Bad(c+":before-execute", posOf(exec), "the template can be executed on a path which skips the escape loop")
+		}
+		/* What follows is about where the rows come from. */
+		data = indexed.Src
 	case nil != mapped:
 		escArg, okCall, why := quoteEscape(p, escCall)
 		switch {
@@ -266,6 +318,8 @@ func checkC18(p *Prog, r *Report) {
 		escAt = escStore
 	} else if nil != mapped {
 		escAt = mapped.Append
+	} else if nil != indexed {
+		escAt = indexed.Store
 	}
 	var dedupe *dedupeLoop
 	rowsV := data
@@ -1017,6 +1071,73 @@ func mappedCopy(data ssa.Value) *mapLoop {
 		return nil
 	}
 	return ml
+}
+
+// idxMap is "out := make([]T, len(Src)); for i, row := range Src { out[i] =
+// T(f(row)) }".
+type idxMap struct {
+	Dst   *ssa.MakeSlice
+	Src   ssa.Value /* the slice ranged over */
+	Elem  ssa.Value /* Src[i] */
+	Call  *ssa.Call /* f(row) */
+	Store *ssa.Store
+	Whole bool /* len(out) is len(Src) and i ranges over all of Src */
+}
+
+// indexedCopy recognises data as the result of such a loop.
+func indexedCopy(data ssa.Value) *idxMap {
+	ms, ok := data.(*ssa.MakeSlice)
+	if !ok || nil == ms.Referrers() {
+		return nil
+	}
+	im := &idxMap{Dst: ms}
+	n := 0
+	var dstIdx ssa.Value
+	for _, ref := range *ms.Referrers() {
+		ia, ok := ref.(*ssa.IndexAddr)
+		if !ok || nil == ia.Referrers() {
+			continue
+		}
+		for _, r2 := range *ia.Referrers() {
+			st, ok := r2.(*ssa.Store)
+			if !ok || st.Addr != ssa.Value(ia) {
+				continue
+			}
+			n++
+			im.Store, dstIdx = st, ia.Index
+		}
+	}
+	if 1 != n {
+		return nil
+	}
+	c, ok := stripConv(im.Store.Val, true).(*ssa.Call)
+	if !ok {
+		return nil
+	}
+	im.Call = c
+	for _, a := range c.Common().Args {
+		u, ok := a.(*ssa.UnOp)
+		if !ok || token.MUL != u.Op {
+			continue
+		}
+		ia, ok := u.X.(*ssa.IndexAddr)
+		if !ok || ia.X == data {
+			continue
+		}
+		im.Src, im.Elem = ia.X, a
+		im.Whole = ia.Index == dstIdx && wholeRange(ia.Index, ia.X)
+	}
+	if nil == im.Src {
+		return nil
+	}
+	/* The copy is as long as the source. */
+	lc, ok := ms.Len.(*ssa.Call)
+	if !ok {
+		im.Whole = false
+	} else if b, isB := lc.Common().Value.(*ssa.Builtin); !isB || "len" != b.Name() || lc.Common().Args[0] != im.Src {
+		im.Whole = false
+	}
+	return im
 }
 
 // cutLoop is the idiom
